@@ -488,7 +488,7 @@ reg("C19", gen=lambda rng, n, tier: F.c19(rng, n, full=(tier == "thorough")) + F
 
 # ------------------------------------------------------------------ C16 / C17
 
-reg("C16", gen=lambda rng, n, tier: F.regex(rng, n), budget=(12000, 80000), absolute=True,
+reg("C16", gen=lambda rng, n, tier: F.regex(rng, (3 * n) // 4) + F.regex_random(rng, n // 4), budget=(12000, 80000), absolute=True,
     compare=lambda c: True,
     rule="-e with regexes of the modelled family (single char, class, alternations of different lengths, '+' runs, "
          "groups, multi-byte literals) x bounds x {-g, -t l|r|b, -p -r R, -r R with $-sequences, -s, -m, -j, --json, "
